@@ -8,14 +8,15 @@ from lockstep import run_impl, run_model, first_diff, shrink
 STORE_FAMILIES = {
     "C01": ["pos", "buf", "bufedge"], "C02": ["pos", "buf", "bufedge"], "C04": ["pos", "buf", "bufedge"],
     "C05": ["pos", "buf", "prq"], "C06": ["pos", "buf", "bufedge"], "C07": ["pos", "buf", "bufedge"],
-    "C11": ["bufedge", "buf"], "C18": ["pos", "bufedge"], "C19": ["pos", "buf"],
+    "C10": ["pos", "buf"], "C11": ["bufedge", "buf"], "C18": ["pos", "bufedge"], "C19": ["pos", "buf"], "C20": ["prq"],
 }
 # judge property ids that decide each property at store level
 JUDGE_PROPS = {p: [p] for p in STORE_FAMILIES}
-JUDGE_PROPS["C11"] = ["C11", "C04"]   # "retrievable from t+d onwards" is judged by the wake-up rule on timed stores
+JUDGE_PROPS["C11"] = ["C11", "C04"]
+JUDGE_PROPS["C10"] = ["C04"]       # store side of "never stranded" = no lost wake-up   # "retrievable from t+d onwards" is judged by the wake-up rule on timed stores
 
 # properties that (also) depend on the node automata and factory-level judges
-NODE_PROPS = {"C03", "C08", "C09", "C15", "C17", "C18", "C19", "C20"}
+NODE_PROPS = {"C03", "C08", "C09", "C10", "C15", "C17", "C18", "C19", "C20"}
 
 def node_stage(pid, tier, seed, known, cov, violations, known_hits):
     import node_family
@@ -66,6 +67,34 @@ def node_stage(pid, tier, seed, known, cov, violations, known_hits):
                                      dict(facet="lockstep:nodes", node=h, activation=ins[k] if k < len(ins) else None,
                                           implementation=a, model=b, config=facs[fi]["cfg"],
                                           diverging_node_runs=len(r["divergences"])))
+        violations.append((path, "no-failing-input-found"))
+
+def config_stage(pid, tier, seed, cov, violations):
+    import config_family as cf
+    tf = time.time()
+    r = cf.run_config_family(tier, seed)
+    cov["families"]["config"] = dict(configurations=r["configs"], divergences=len(r["divergences"]), outcomes=r["outcomes"],
+                                     wall_s=round(time.time() - tf, 2))
+    cov["evaluations"] += r["configs"]; cov["distinct_nontrivial"] += r["configs"] - r["outcomes"].get("ok", 0)
+    cov["traces_validated_against_impl"] += r["configs"] - len(r["divergences"])
+    say(f"[check {pid}] family config: {r['configs']} configurations, {len(r['divergences'])} divergences from the validation model")
+    def invalid(c):
+        return (c["cap"] != "pos" or c["mode"] == "0" or "neg" in (c["bufDelay"], c["iat"], c["pd"], c["setup"]) or
+                (c["iat"] == "zero" and c["blk"] == "0") or "0" in (c["srcConn"], c["machIn"], c["machOut"], c["sinkConn"]) or
+                "constbad" in (c["srcPol"], c["inPol"], c["outPol"]))
+    bad = [(c, real, model) for (c, real, model) in r["divergences"] if invalid(c) and real in ("ok", "livelock")]
+    if r["model_error"]:
+        path = checklib.write_replay(pid, seed, "model-driver", None, None, dict(facet="validate", error=r["model_error"]))
+        violations.append((path, "no-failing-input-found"))
+    elif bad:
+        c, real, model = bad[0]
+        path = checklib.write_replay(pid, seed, "config", None, None, dict(config_kinds=c, observed=real, expected=model,
+                                     message="an invalid configuration is simulated instead of being rejected"))
+        violations.append((path, f"invalid configuration {dict((k, v) for k, v in c.items() if cf.DEFAULT[k] != v)} was not rejected: {real}"))
+    elif r["divergences"]:
+        c, real, model = r["divergences"][0]
+        path = checklib.write_replay(pid, seed, "config-divergence", None, None, dict(facet="validate", config_kinds=c, implementation=real, model=model,
+                                     diverging=len(r["divergences"])))
         violations.append((path, "no-failing-input-found"))
 
 ASSUME = [
@@ -172,6 +201,8 @@ def check_property(pid, tier, seed):
                 violations.append((path, "no-failing-input-found"))
     if pid in NODE_PROPS:
         node_stage(pid, tier, seed, known, cov, violations, known_hits)
+    if pid == "C20":
+        config_stage(pid, tier, seed, cov, violations)
     # ---- known findings / fixed findings: replay the recorded witnesses on the real code
     for k in known:
         if pid not in k["properties"]: continue
